@@ -550,3 +550,104 @@ def self_test():  # noqa: F811
     t = ast.parse(POSITIVE_EXAMPLES['gen_after_kill']).body[0]
     ok['gen_after_kill'] = bool(gen_after_kill(t))
     return ok
+
+
+INDEX_METHODS = {'find_assignment_index', 'index', 'find_index'}
+
+
+def stale_indices(fnode):
+    """[(container, index var, def node, rebind node, use node)]: a position in `container` is computed, `container` is
+    re-bound (statements inserted/removed) and the old position is then used to subscript the new container.
+    Positions cached in a list (L.append(i) ... i = L[k]) keep the node where they were computed."""
+    cfg = CFG(fnode)
+    # taint: var -> set of (container, def node id)
+    taint: dict[str, set] = {}
+    changed = True
+    stmt_nodes = [n for n in cfg.nodes.values() if n.kind == 'stmt' and n.ast is not None]
+    while changed:
+        changed = False
+        for n in stmt_nodes:
+            a = n.ast
+            if isinstance(a, ast.Assign) and len(a.targets) == 1 and isinstance(a.targets[0], ast.Name):
+                v, val = a.targets[0].id, a.value
+                new = set()
+                if isinstance(val, ast.Call) and isinstance(val.func, ast.Attribute) and val.func.attr in INDEX_METHODS \
+                        and isinstance(val.func.value, ast.Name):
+                    new.add((val.func.value.id, n.id))
+                elif isinstance(val, ast.Subscript) and isinstance(val.value, ast.Name) and val.value.id in taint:
+                    new |= taint[val.value.id]
+                elif isinstance(val, ast.Name) and val.id in taint:
+                    new |= taint[val.id]
+                if new - taint.get(v, set()):
+                    taint.setdefault(v, set()).update(new)
+                    changed = True
+            if isinstance(a, ast.Expr) and isinstance(a.value, ast.Call) and isinstance(a.value.func, ast.Attribute) \
+                    and a.value.func.attr == 'append' and isinstance(a.value.func.value, ast.Name) and a.value.args:
+                L = a.value.func.value.id
+                arg = a.value.args[0]
+                src = set()
+                if isinstance(arg, ast.Name) and arg.id in taint:
+                    src = taint[arg.id]
+                elif isinstance(arg, ast.Call) and isinstance(arg.func, ast.Attribute) and arg.func.attr in INDEX_METHODS \
+                        and isinstance(arg.func.value, ast.Name):
+                    src = {(arg.func.value.id, n.id)}
+                if src - taint.get(L, set()):
+                    taint.setdefault(L, set()).update(src)
+                    changed = True
+    out = []
+    seen = set()
+    for n in cfg.nodes.values():
+        a = n.ast
+        if a is None or n.kind not in ('stmt', 'test', 'return'):
+            continue
+        for sub in ast.walk(a):
+            if not (isinstance(sub, ast.Subscript) and isinstance(sub.value, ast.Name)):
+                continue
+            cont = sub.value.id
+            idx_names = {x.id for x in ast.walk(sub.slice) if isinstance(x, ast.Name)} & set(taint)
+            for iv in idx_names:
+                for (c, d) in taint[iv]:
+                    if c != cont:
+                        continue
+                    rebinds = [r for r in stmt_nodes if isinstance(r.ast, ast.Assign)
+                               and any(isinstance(t, ast.Name) and t.id == cont for t in r.ast.targets)]
+                    # direct definitions of the index variable kill the old position
+                    kills = {k.id for k in stmt_nodes if isinstance(k.ast, ast.Assign)
+                             and any(isinstance(t, ast.Name) and t.id == iv for t in k.ast.targets)
+                             and isinstance(k.ast.value, ast.Call) and isinstance(k.ast.value.func, ast.Attribute)
+                             and k.ast.value.func.attr in INDEX_METHODS}
+                    for r in rebinds:
+                        if r.id == n.id:
+                            continue
+                        after_r = set()
+                        for s_ in cfg.g.successors(r.id):
+                            if s_ not in kills:
+                                after_r |= cfg.reachable(s_, avoid=kills)
+                        if r.id in cfg.reachable(d) and n.id in after_r:
+                            # the position computed at d survives the rebind r and is used at n
+                            key = (cont, iv, d, n.id)
+                            if key not in seen:
+                                seen.add(key)
+                                out.append((cont, iv, cfg.nodes[d], r, n))
+    return out
+
+
+POSITIVE_EXAMPLES['stale_indices'] = """
+def f(sset, names):
+    indices = []
+    for name in names:
+        indices.append(sset.find_assignment_index(name))
+    for i in range(len(names)):
+        index = indices[i]
+        statement = sset[index]
+        sset = sset[0:index] + new(statement) + sset[index + 1:]
+    return sset
+"""
+_self_test_base4 = self_test
+
+
+def self_test():  # noqa: F811
+    ok = _self_test_base4()
+    t = ast.parse(POSITIVE_EXAMPLES['stale_indices']).body[0]
+    ok['stale_indices'] = bool(stale_indices(t))
+    return ok
